@@ -437,7 +437,8 @@ func (t *Typechecker) VisitBinaryExpr(expr *ast.BinaryExpr) ast.VisitResult {
 		validate(ddptypes.ZAHL, ddptypes.BYTE)
 		t.latestReturnedType = lhs
 	case ast.BIN_EQUAL, ast.BIN_UNEQUAL:
-		if !ddptypes.Equal(lhs, rhs) {
+		// two operands without a type (e.g. calls of functions that return nothing) are not comparable
+		if !ddptypes.Equal(lhs, rhs) || ddptypes.IsVoid(lhs) {
 			t.errExpr(ddperror.TYP_TYPE_MISMATCH, expr, "Der '%s' Operator erwartet zwei Operanden gleichen Typs aber hat '%s' und '%s' bekommen", expr.Operator, lhs, rhs)
 		}
 		t.latestReturnedType = ddptypes.WAHRHEITSWERT
